@@ -138,7 +138,151 @@ def configs():
         ('split[3,STRICT]', S.split, {'factor': 3, 'strategy': SplitLoopStrategy.STRICT}, lambda n: isinstance(n, A.ForStmt)),
         ('unfold_special', S.unfold_special, {}, None),
         ('float_to_fixed', S.float_to_fixed, {}, None),
+        ('unfold_overflow', S.unfold_overflow, {}, None),
+        ('unfold_overflow[early]', S.unfold_overflow, {'early_check': True}, None),
+        ('unfold_neg_zero', S.unfold_neg_zero, {}, None),
+        ('rescale_fixed', S.rescale_fixed, {}, None),
+        ('insert_round[FP64]', S.insert_round, {'ctx': fp.FP64}, None),
+        ('insert_round[FP32]', S.insert_round, {'ctx': fp.FP32}, None),
     ]
+
+
+# Hand-written programs for strategies whose sites need pinned argument formats (monomorphize first): exact operations under REAL in
+# statement position, in a `for` iterable, in conditions and `with` headers.
+HAND19 = {
+    'hand_ir_for_iterable': '''@fp.fpy(ctx=fp.FP64)
+def hand_ir_for_iterable(x: fp.Real, y: fp.Real) -> fp.Real:
+    with fp.REAL:
+        p = x * y
+        acc = 0.0
+        for v in [x * x, y]:
+            acc = acc + v
+        r = acc + p
+    return r''',
+    'hand_ir_mixed': '''@fp.fpy(ctx=fp.FP64)
+def hand_ir_mixed(x: fp.Real, y: fp.Real) -> fp.Real:
+    with fp.REAL:
+        a = x * y
+        if x * x > y:
+            a = a + x * y
+        for v in [x * y]:
+            for w in [v * x, y * y]:
+                a = a + w
+        i = 0.0
+        while i * x < y:
+            i = i + x * x
+        b = a * x
+    return b + i''',
+}
+
+
+RULE_PROGS = {
+    'hand_rule_exprs': '''@fp.fpy
+def hand_rule_exprs(x: fp.Real, y: fp.Real, z: fp.Real):
+    a = x * y + z
+    b = a - 1
+    if b > 0:
+        c = (y * z + x) - (z * x + y)
+    else:
+        c = b
+    for i in range(3):
+        c = c * 2
+        d = c * x + i
+    return a + c''',
+    'hand_rule_stmts': '''@fp.fpy
+def hand_rule_stmts(x: fp.Real, y: fp.Real, z: fp.Real):
+    y = x + 1
+    t = y * 2
+    if t > z:
+        y = t + 1
+        u = y
+    else:
+        u = z
+    while u < 10:
+        y = u + 1
+        u = y * 2
+    if u > 100:
+        y = u + 1
+    if y > 100:
+        y = z + 1
+    return u + y''',
+    'hand_rule_none': '''@fp.fpy
+def hand_rule_none(x: fp.Real, y: fp.Real, z: fp.Real):
+    return x - y * z''',
+}
+
+
+def record_rules():
+    """user rewrite rules (fpy2.rewrite) aimed by index, by cursor and at nothing"""
+    from fpy2.rewrite import Rewrite, find_all
+
+    @fp.pattern
+    def fma_l(a, b, c):
+        a * b + c
+
+    @fp.pattern
+    def fma_r(a, b, c):
+        fp.fma(a, b, c)
+
+    @fp.pattern
+    def bump_l(a):
+        y = a + 1
+
+    @fp.pattern
+    def bump_r(a):
+        y = a + 3
+
+    @fp.pattern
+    def guard_l(c, a):
+        if c:
+            y = a + 1
+
+    @fp.pattern
+    def guard_r(c, a):
+        if c:
+            y = a + 3
+
+    rules = {'fma': (Rewrite(fma_l, fma_r), fma_l), 'bump': (Rewrite(bump_l, bump_r), bump_l), 'guard': (Rewrite(guard_l, guard_r), guard_l)}
+    work = tempfile.mkdtemp(prefix='verif-c19r-')
+    recs = []
+    try:
+        funcs, rej = gen_prog.load_programs(RULE_PROGS, work, 'c19rules')
+        if rej:
+            raise core.MachineryError(f'a hand-written C19 program is rejected: {rej}')
+        for name, f in funcs.items():
+            for rname, (rule, lhs) in rules.items():
+                try:
+                    listed = find_all(lhs, f)
+                except Exception as e:       # noqa: BLE001
+                    recs.append({'kind': 'rule', 'prog': name, 'src': RULE_PROGS[name], 'config': 'rule:' + rname, 'where': -999,
+                                 'outcome': type(e).__name__, 'k': -1, 'left': 0, 'cur': True})
+                    continue
+                k = len(listed)
+                for where in [None, -1, -k, -k - 1, k, k + 1] + list(range(k)):
+                    if where is not None and where == 0 and k == 0:
+                        pass
+                    try:
+                        g = rule.apply(f, where)
+                        outcome = 'ok'
+                    except Exception as e:      # noqa: BLE001
+                        g = None
+                        outcome = type(e).__name__
+                    left, cur = 0, True
+                    if g is not None:
+                        try:
+                            left = len(find_all(lhs, g))
+                        except Exception:       # noqa: BLE001
+                            left = -1
+                        if where is not None and 0 <= where < k:
+                            try:
+                                cur = rule.apply(f, listed[where]).format() == g.format()
+                            except Exception:       # noqa: BLE001
+                                cur = False
+                    recs.append({'kind': 'rule', 'prog': name, 'src': RULE_PROGS[name], 'config': 'rule:' + rname,
+                                 'where': -999 if where is None else where, 'outcome': outcome, 'k': k, 'left': left, 'cur': cur})
+    finally:
+        shutil.rmtree(work, ignore_errors=True)
+    return recs
 
 
 def fw_json(g, cur):
@@ -156,7 +300,7 @@ def apply(strategy, f, where, kw):
     if 'factor' in kw2:
         fac = kw2.pop('factor')
         return strategy(f, fac, where, **kw2)
-    return strategy(f, where, **kw2)
+    return strategy(f, where=where, **kw2)
 
 
 def record(job):
@@ -165,6 +309,14 @@ def record(job):
     recs = []
     S = fp.strategies
     try:
+        items = []
+        if lo == 0:
+            from fpy2.types import RealType
+            hf, hrej = gen_prog.load_programs(HAND19, work, f'c19h_{seed}')
+            if hrej:
+                raise core.MachineryError(f'a hand-written C19 program is rejected: {hrej}')
+            for n, f0 in hf.items():
+                items.append((n, HAND19[n], S.monomorphize(f0, fp.FP64, [RealType(fp.FP32)] * 2)))
         for i in range(lo, hi):
             rng = random.Random(seed * 7907 + i)
             name = f'c19p{i}'
@@ -172,7 +324,8 @@ def record(job):
             funcs, rej = gen_prog.load_programs({name: text}, work, f'c19_{seed}_{i}')
             if name not in funcs:
                 continue
-            f = funcs[name]
+            items.append((name, text, funcs[name]))
+        for (name, text, f) in items:
             old = tree(f.ast)
             for (cname, strat, kw, cand_pred) in configs():
                 skw = {k: v for k, v in kw.items() if k != 'factor'}
@@ -186,9 +339,18 @@ def record(job):
                     refused = [c for c, _ in S.refusals(strat, f, **skw)]
                 except Exception:           # noqa: BLE001
                     refused = []
-                spaths = [enc_stmt(c.path) for c in sites if isinstance(c, StmtCursor)]
-                rpaths = [enc_stmt(c.path) for c in refused if isinstance(c, StmtCursor)]
-                if cand_pred is not None:
+                exprsited = any(not isinstance(c, StmtCursor) for c in sites)
+                if exprsited:
+                    # sites are expressions (insert_round): each is accounted for by the statement that holds it; the sharper
+                    # per-expression accounting is the inline section's (markers)
+                    spaths = [enc_stmt(c.path.stmt() if hasattr(c.path, 'stmt') else c.path) for c in sites]
+                    rpaths = []
+                else:
+                    spaths = [enc_stmt(c.path) for c in sites if isinstance(c, StmtCursor)]
+                    rpaths = [enc_stmt(c.path) for c in refused if isinstance(c, StmtCursor)]
+                if exprsited:
+                    cand = list(spaths)
+                elif cand_pred is not None:
                     cand = [enc_stmt(p) for p, s in walk_stmts(f.ast) if cand_pred(s)]
                 else:
                     cand = spaths + rpaths
@@ -204,6 +366,8 @@ def record(job):
                     cur = True
                     lone = where is not None and 0 <= where < k and not any(
                         q != spaths[where] and q[:len(spaths[where])] == spaths[where] for q in spaths)
+                    if exprsited:
+                        lone = where is not None and 0 <= where < k
                     if g is not None and lone:      # (a statement cursor takes every site at or beneath it: compared where that is one site)
                         # the same site named by its cursor instead of its index
                         try:
@@ -412,6 +576,7 @@ def run(tier: str) -> int:
     ne = 12 if tier == 'quick' else 300
     ejobs = [(core.seed(), i, min(ne, i + 3)) for i in range(0, ne, 3)]
     recs += [r for rs in core.pool_map(record_expr, ejobs, chunksize=1) for r in rs]
+    recs += record_rules()
     for i, r in enumerate(recs):
         r['tid'] = i
     # chain records skip the model comparison (no single edit log): mark so the spec only checks descent
@@ -432,6 +597,7 @@ def run(tier: str) -> int:
                     'distinct_nontrivial': sum(1 for r in recs if r.get('edits') or r.get('gone')),
                     'cursors_forwarded': sum(len(r.get('fw', r.get('efw')) or []) for r in recs),
                     'expression_sited_applications': sum(1 for r in recs if r.get('kind') == 'expr'),
+                    'rewrite_rule_applications': sum(1 for r in recs if r.get('kind') == 'rule'),
                     'rule': 'seeded marker programs x 8 aimable strategy configurations x where in {None, -1, 0..k}; every statement cursor of '
                             'the old program forwarded; non-trivial = the application produced edits'})
     for r in recs[:: max(1, len(recs) // 3)][:3]:
